@@ -264,6 +264,16 @@ class HDeque:
 
 
 @dataclass
+class HSet:
+    """a mutable set built at run time: the values added so far (membership is decided by ==
+    against each of them; duplicates are harmless)"""
+    items: list
+
+    def copy(self):
+        return HSet(list(self.items))
+
+
+@dataclass
 class HCell:
     """generic mutable box for library objects (StringIO text etc.)"""
 
